@@ -63,6 +63,25 @@ def probe(job):
     return out
 
 
+def probe_sequence(jobs):
+    """several compiles one after the other in ONE worker process (an editor session): each verdict must
+    be about the text submitted with it"""
+    return [probe(j) for j in jobs]
+
+
+def sequences():
+    pad = "# a comment line\n\n" * 3
+    loop = "@constexpr\ndef g(a):\n    while True:\n        pass\n"
+    boom = "@constexpr\ndef g(a):\n    return 1 // a\n"
+    seqs = []
+    seqs.append(("timeout_then_shorter_text", [pad + loop + pad + "db.Setting = g(1)\n", loop + "db.Setting = g(1)\n", "db.Setting = 1\n",
+                                                loop + "\n\n\ndb.Setting = g(1)\n"]))
+    seqs.append(("error_then_shorter_text", [pad + boom + pad + "db.Setting = g(0)\n", boom + "db.Setting = g(0)\n", boom + "db.Setting = g(1)\n"]))
+    seqs.append(("syntax_error_then_valid", ["def f(:\n", "db.Setting = 1\n", "x = (\n\n\n", "db.Setting = undefined_name\n", "db.Setting = 2\n"]))
+    seqs.append(("unknown_name_positions", ["\n\n\n\n\ndb.Setting = nope\n", "db.Setting = nope\n"]))
+    return seqs
+
+
 def run_probes(jobs, workers=8):
     ctx = mp.get_context("fork")
     res = [None] * len(jobs)
@@ -234,6 +253,31 @@ def main(tier, seed):
             r = out["result"]
             verdicts["code" if "code" in r else "error" if "error" in r else "other"] += 1
         check_verdict(run, src, opts, out or {"worker_error": "no result"}, kind, extra)
+    # editor sessions: sequences of compiles in one process
+    ctx = mp.get_context("fork")
+    for name, srcs in sequences():
+        with ctx.Pool(1) as pool:
+            try:
+                outs = pool.apply_async(probe_sequence, ([(x, impl.vec(append_version=False)) for x in srcs],)).get(timeout=LIMIT_S * 3 * len(srcs))
+            except Exception as e:  # noqa
+                outs = [{"worker_error": repr(e)}]
+        for pos, (x, out) in enumerate(zip(srcs, outs)):
+            kinds["sequence"] = kinds.get("sequence", 0) + 1
+            run.count("evaluations")
+            # the same text compiled alone in a fresh process must give the same verdict position
+            with ctx.Pool(1) as pool1:
+                try:
+                    alone = pool1.apply_async(probe, ((x, impl.vec(append_version=False)),)).get(timeout=LIMIT_S * 3)
+                except Exception as e:  # noqa
+                    alone = {"worker_error": repr(e)}
+            pa = ((alone.get("result") or {}).get("error") or {}) if isinstance(alone.get("result"), dict) else {}
+            ps = ((out.get("result") or {}).get("error") or {}) if isinstance(out.get("result"), dict) else {}
+            if isinstance(pa, dict) and isinstance(ps, dict) and (pa.get("line"), pa.get("column")) != (ps.get("line"), ps.get("column")):
+                run.violation("the verdict of a text depends on what was compiled before it in the same process",
+                              {"kind": "sequence", "failure": "stale_verdict", "sequence": name, "position_in_sequence": pos, "source": x,
+                               "earlier_sources": srcs[:pos], "in_session": ps, "alone": pa, "expects_timeout": True})
+            check_verdict(run, x, impl.vec(append_version=False), out, "sequence",
+                          {"sequence": name, "position_in_sequence": pos, "earlier_sources": srcs[:pos], "expects_timeout": True})
     run.cov["distinct_nontrivial"] = len({(repr(j[0])) for j in jobs2})
     run.cov["rule"] = "one evaluation = one compile_code call in a forked worker under a wall-clock limit followed by a /proc scan: prefixes of the repository's programs (keystroke model), token/character mutations, random Unicode text, every unsupported construct, recursion, constexpr bodies that fail / print / never end / sleep / exit / return non-JSON / spawn; verdict shape, statistics, error position and surviving children are checked; distinct by source text"
     run.cov["input_distribution"] = {"kinds": kinds, "verdicts": verdicts}
